@@ -441,7 +441,7 @@ func genWalk() string {
 	}
 	sb.WriteString("/-- walker.walk: per case of the type switch, the child slots walked, in order -/\n")
 	fmt.Fprintf(&sb, "def walkCases : List (NK × List Slot) := [\n%s\n]\n\n", strings.Join(rows, ",\n"))
-	sb.WriteString("def walkTargets : Table := fun k => (walkCases.lookup k).getD []\n")
+	sb.WriteString("def walkTargets : WalkTable := fun k => (walkCases.lookup k).getD []\n")
 	sb.WriteString("def walkHasCase (k : NK) : Bool := (walkCases.lookup k).isSome\n")
 	fmt.Fprintf(&sb, "/-- the last statement of every case -/\ndef walkCaseLastStmts : List String := %s\n", leanStrList(lasts))
 	fmt.Fprintf(&sb, "def walkDefaultPanics : Bool := %v\n\n", defaultPanics)
